@@ -198,8 +198,8 @@ def run_prune(tier, funcs, index, enums, res, text):
 
 def run_delete(tier, funcs, index, enums, res, text):
     import c02_walk
-    for fm in (0, 2):
-        r = c02_walk.explore_delete(funcs, index, enums, text, fm)
+    for fm, pr in ((0, False), (2, False), (0, True)):
+        r = c02_walk.explore_delete(funcs, index, enums, text, fm, prune=pr)
         res["functions_executed"].update(r.pop("functions_executed"))
         for v in r.pop("violations"):
             res["violations"].append({"key": "delete | " + v["what"].split(":")[-1].strip()[:50].split("[")[0], "summary": v["what"], "replayer": "delete_decision", "config": v.get("config"), "what": v["what"]})
@@ -212,7 +212,9 @@ def run_delete(tier, funcs, index, enums, res, text):
                      "walkdir's iterator and a model file system (remove_file / remove_dir with ENOTEMPTY, ENOTDIR, EISDIR)")
     res["bounds"] = ("tree: r, r/a, r/d, r/d/f, r/d/g, r/d/g/h, r/d/k (link closing a cycle), r/d/m and r/l (dangling links), r/s (link to an empty directory elsewhere), r/z; X selects "
                      "any subset of eight of them (symbolic); -P and -L; compared with the reference: the sequence of unlink/rmdir calls (post-order; a link is unlinked, also one -L "
-                     "descends; a directory is removed only when nothing is left in it), what is left afterwards, -delete implies -depth, status non-zero iff a removal failed or an entry was diagnosed")
+                     "descends; a directory is removed only when nothing is left in it), what is left afterwards, -delete implies -depth, status non-zero iff a removal failed or an entry was diagnosed; "
+                     "under -P also the expression '-name P -prune -o -name X -delete' with P any subset of {r/d, r/d/g} and X any subset of five entries: -delete implies -depth, under which -prune cuts "
+                     "nothing - exactly the entries with X and not P are removed, in post-order")
 
 
 def run_files0(tier, funcs, index, enums, res):
@@ -235,7 +237,7 @@ def run_files0(tier, funcs, index, enums, res):
 
 def run_exec(prop, tier, funcs, index, enums, res):
     import c08_exec
-    kinds = ["multi", "multi_dir", "multi_quit", "multi_two", "multi_roots", "multi_roots_dir"] if prop == "C08" else ["single", "single_dir"]
+    kinds = ["multi", "multi_dir", "multi_dir_min", "multi_quit", "multi_two", "multi_roots", "multi_roots_dir"] if prop == "C08" else ["single", "single_dir"]
     res["target"] = ("process_dir + WalkEntry::from_walkdir + %s (built by the real expression parser from '-exec[dir] cmd ... %s') over a scripted walkdir tree"
                      % (("MultiExecMatcher::{new,matches,finished_dir,finished,run_command,new_command}", "{} +") if prop == "C08"
                         else ("SingleExecMatcher::{new,matches}", ";")))
@@ -483,7 +485,31 @@ def run_perm(tier, funcs, index, enums, res):
     res["bounds"] += "; -perm: operands %r (well-formed and malformed), each read as chmod would apply it to 0 with umask 0 (malformed ones must be refused), then matched against the file modes %s" % (c13_perm.OPERANDS, [oct(x) for x in c13_perm.FILE_MODES])
 
 
+def _guard(fn):
+    """an internal error of one exploration (typically: the code under test changed an interface a model or recorder was written against) must not
+    discard what the other explorations of the property found: it is recorded as an unsupported path (-> INCONCLUSIVE unless a violation is reported)"""
+    def wrapped(*a, **kw):
+        try:
+            return fn(*a, **kw)
+        except (SystemExit, KeyboardInterrupt):
+            raise
+        except Exception as e:
+            import traceback
+            res = a[4] if len(a) > 4 and isinstance(a[4], dict) else None
+            if res is None:
+                raise
+            tb = traceback.extract_tb(e.__traceback__)[-1]
+            k = "internal error in %s: %s: %s (%s:%d)" % (fn.__name__, type(e).__name__, str(e)[:80], os.path.basename(tb.filename), tb.lineno)
+            res["unsupported"][k] = res["unsupported"].get(k, 0) + 1
+            res.setdefault("target", ""); res.setdefault("bounds", "")
+    wrapped.__name__ = fn.__name__
+    return wrapped
+
+
 def main():
+    for _n, _f in list(globals().items()):
+        if _n.startswith("run_") and callable(_f):
+            globals()[_n] = _guard(_f)
     prop, tier, out = sys.argv[1], sys.argv[2], sys.argv[3]
     t0 = time.time()
     funcs, index, enums, dump_s, text = loader.load()
